@@ -29,7 +29,7 @@ func init() {
 
 func checkC20(c *Ctx) {
 	p := c.P
-	checkReceiverDiscipline(c, "R5", func(n string) bool { return n == "observerRunner" || n == "actor" || n == "tableEngineAdapter" }, 12)
+	checkReceiverDiscipline(c, "R5", p.implementersIn("/actor", "Runner", "Actor", "Adapter"), 12)
 	checkCloneCompleteness(c, "R2")
 	// R4: the actor package never reads the engine's own state: the only TableEngine methods it
 	// invokes are the player operations (everything an actor sees comes from its private copy)
